@@ -16,7 +16,10 @@ FIELD_VALS = [None, 0, 1, 2, -1, 1.5, 10, float("inf"), 2.0, 0.1, -2, 1e16, 2.5e
 # the scenarios a random history draws from (some twice) and their names
 SCENARIO_DRAW = ["ooo_batch", "carriers", "bad_batch", "stale_handle", "torn_update", "handle_times", "linebreaks", "zones",
                       "remove_first", "ooo_then_remove", "nested_not", "reset_then_time", "nan_fields", "epoch", "sparse_write", "sparse_write", "future_untimed", "range_ends", "noop_compose", "substring_names", "same_size", "one_us_late", "mixed_quoting", "far_sorted", "getter_memo", "handle_sorted", "odd_strings", "shared_maps", "hash_twins", "same_count", "redate", "fold_twins", "big_ties", "handle_unset", "same_row_twice", "or_not", "noop_match", "minute_marks", "none_name", "merge_rename", "tiny_float_change", "big_ints", "redate_remove", "underscore_keys", "buffered_handle"]
-SCENARIOS = list(dict.fromkeys(SCENARIO_DRAW))
+# scenarios that are only ever FORCED (dbtie runs every scenario once per configuration; a check names the ones it wants in both passes under
+# 'scenario_also'): adding one here leaves every random history - and what it is known to catch - what it was
+SCENARIO_FORCED_ONLY = ["ne_writes"]
+SCENARIOS = list(dict.fromkeys(SCENARIO_DRAW)) + SCENARIO_FORCED_ONLY
 
 
 class Gen:
@@ -898,6 +901,26 @@ class Gen:
             tq = ("S", "time", [], ("cmp", ">" if later else "<", ("t", bound)))
             ops += [r.choice([("remove", tq, None), ("remove", ("and", tq, ("S", "tags", [("k", "n")], ("exists",))), None), ("remove", ("S", "time", [], ("cmp", "==", ("t", new_t))), None)])] + obs
             ops += [("count", tq, None), ("all", False), ("get_timestamps", None)]
+        elif k == "ne_writes":
+            # writes selected by `!=`: a time that is exactly the NEWEST stored instant (held by two points), a field some points hold as None and
+            # others not at all - alone and inside &; what `!=` leaves behind must stay
+            pts = self.points_batch(r.choice([5, 6]), in_order=True)
+            pts[-1]["time"] = pts[-2]["time"]
+            for i, p in enumerate(pts):
+                p["tags"]["n"] = "abcdefgh"[i]
+                p["fields"].pop("v", None)
+                if i % 3 != 2:
+                    p["fields"]["v"] = [1, None, 2, 1.0, None, 3][i]
+            newest = pts[-1]["time"]
+            ops += [("insert", pts, None, "multiple")] + obs
+            tne = ("S", "time", [], ("cmp", "!=", ("t", r.choice([newest, newest, pts[0]["time"]]))))
+            fne = ("S", "fields", [("k", "v")], ("cmp", "!=", ("n", r.choice([1, 1, 7]))))
+            has = ("S", "tags", [("k", "n")], ("exists",))
+            for q in r.sample([tne, fne], 2):
+                q2 = r.choice([q, ("and", q, has), ("and", has, q)])
+                ops += [("count", q, None), r.choice([("remove", q2, None), ("update", q2, {"tags": ("static", {"hit": "1"})}, None), ("remove", q2, None)])] + obs + [("all", False)]
+                ops += [("insert", pts[:3], None, "multiple")] + obs
+            ops += [("count", tne, None), ("count", fne, None), ("search", ("and", fne, tne), None, False)]
         elif k == "underscore_keys":
             # tag / field keys with underscores in them, written with compact key prefixes; removals and updates decided by SCANNING (a negated field
             # test is not answered by the index; so is everything when automatic indexing is off)
